@@ -574,6 +574,11 @@ def install(step_meter=True):
         logging.disable(logging.CRITICAL)      # the solver logs at INFO/ERROR through the root logger
     if sys.flags.optimize:
         MON.count("env.optimized_interpreter_workers")
+    if os.environ.get("VERIF_WARNINGS") == "error":
+        import warnings
+        for m_ in ("tad", "conditionalrewards", "reverse_dfs", "roberta_generator", "stochastic_game_from_roborta_board"):
+            warnings.filterwarnings("error", module="^" + m_ + "$")
+        MON.count("env.warnings_as_errors_workers")
     reverse_dfs = importlib.import_module("reverse_dfs")
     tad = importlib.import_module("tad")
     cr = importlib.import_module("conditionalrewards")
@@ -635,6 +640,76 @@ class Outcome:
 
 
 NOSOL_PREFIX = "The game has no solution"
+
+
+class capture_log:
+    """M-LOG: what run_games / main write to the log at INFO level (the only report a user gets without -s): the labelled lines
+    '<Label> : <value>' of every game, in order.  Works whatever the root level is: a handler is added and the level lowered
+    for the duration (and logging.disable lifted)."""
+    LABELS = {"Message": "msg", "Reachability strategies": "reachability_strategies", "Final strategies": "final_strategies", "Rewards": "rewards",
+              "Rewards min reach": "rew_min_reach", "Probabilities": "probabilities", "Probabilities min rew": "prob_min_rew"}
+
+    def __enter__(self):
+        import logging
+        self.records = []
+        outer = self
+
+        class H(logging.Handler):
+            def emit(self, record):
+                try:
+                    outer.records.append(record.getMessage())
+                except Exception:      # noqa
+                    outer.records.append(None)
+        self.h = H(level=logging.INFO)
+        root = logging.getLogger()
+        self.old_level, self.old_disable = root.level, root.manager.disable
+        logging.disable(logging.NOTSET)
+        if root.getEffectiveLevel() > logging.INFO or root.level == logging.NOTSET:
+            root.setLevel(logging.INFO)
+        root.addHandler(self.h)
+        return self
+
+    def __exit__(self, *a):
+        import logging
+        root = logging.getLogger()
+        root.removeHandler(self.h)
+        root.setLevel(self.old_level)
+        logging.disable(self.old_disable)
+        return False
+
+    def blocks(self):
+        """-> list of dicts (one per 'Running example: <name>' section): {"name":..., label: text}"""
+        out, cur = [], None
+        for msg in self.records:
+            if not isinstance(msg, str):
+                continue
+            if msg.startswith("Running example: "):
+                cur = {"name": msg[len("Running example: "):]}
+                out.append(cur)
+                continue
+            if cur is None:
+                continue
+            head, sep, val = msg.partition(":")
+            label = head.strip()
+            if sep and label in self.LABELS and head == head.rstrip() + " " * (len(head) - len(head.rstrip())) and label not in cur:
+                cur[label] = val[1:] if val.startswith(" ") else val
+        return out
+
+
+def check_log_against(blocks, results):
+    """Every labelled INFO line of a game must state the value of the entry run_games returned for it. -> problems"""
+    problems = []
+    names = [b["name"] for b in blocks]
+    if names != list(results.keys()):
+        return [{"problem": "the INFO log does not show one section per entry in run order", "log": names[:8], "entries": list(results.keys())[:8]}]
+    for b, (name, e) in zip(blocks, results.items()):
+        for label, key in capture_log.LABELS.items():
+            if label not in b:
+                problems.append({"problem": "the INFO log of %s has no line '%s'" % (name, label)})
+            elif b[label] != str(e[key]):
+                problems.append({"problem": "the INFO log line '%s' of %s does not state the value that was computed" % (label, name),
+                                 "log": b[label][:200], "computed": str(e[key])[:200]})
+    return problems
 
 
 def observed_solve(game, prune, limit=None, sg=None):
